@@ -65,7 +65,7 @@ def cases(draw, max_n=30):
         rows.append([t, draw(st.integers(lo, hi)), hi, lo, draw(st.integers(lo, hi)), draw(st.integers(0, 9))])
         t += draw(st.sampled_from((step, step, step, 0, 1, 3 * step)))
     preload = min(n, draw(st.sampled_from((0, 1, n // 2, n))))
-    return {"tz": tz, "tf": tf, "stream": rows, "preload": preload, "chunks": draw(gs.chunking(n - preload)), "fill": draw(st.booleans()), "on_transition": on_transition, "mode": draw(st.sampled_from(("manager", "manager", "indicator", "hexital")))}
+    return {"tz": tz, "tf": tf, "stream": rows, "preload": preload, "chunks": draw(gs.chunking(n - preload)), "fill": draw(st.booleans()), "on_transition": on_transition, "mode": draw(st.sampled_from(("manager", "manager", "indicator", "hexital"))), "lifespan": draw(st.sampled_from((None, None, None, 2 * tfs, 3600, 5 * tfs + 7)))}
 
 
 def _collapse(case):
@@ -77,14 +77,17 @@ def _collapse(case):
     pre = min(case.get("preload", 0), len(rows))
     mode = case.get("mode", "manager")
     fill = bool(case.get("fill"))
+    from datetime import timedelta
+
+    life = {"candles_lifespan": timedelta(seconds=case["lifespan"])} if case.get("lifespan") else {}
     if mode == "indicator":
-        m = HighLowAverage(candles=mk_candles(rows[:pre]), timeframe=case["tf"], timeframe_fill=fill)
+        m = HighLowAverage(candles=mk_candles(rows[:pre]), timeframe=case["tf"], timeframe_fill=fill, **life)
         get = lambda: m.candles  # noqa: E731
     elif mode == "hexital":
-        m = Hexital("c18", mk_candles(rows[:pre]), [HighLowAverage(timeframe=case["tf"])], timeframe_fill=fill)
+        m = Hexital("c18", mk_candles(rows[:pre]), [HighLowAverage(timeframe=case["tf"])], timeframe_fill=fill, **life)
         get = lambda: m.candles(case["tf"].upper())  # noqa: E731
     else:
-        m = CandleManager(mk_candles(rows[:pre]), timeframe=case["tf"], timeframe_fill=fill)
+        m = CandleManager(mk_candles(rows[:pre]), timeframe=case["tf"], timeframe_fill=fill, **life)
         get = lambda: m.candles  # noqa: E731
     rest = rows[pre:]
     for a, b in split_chunks(len(rest), case.get("chunks", [])):
@@ -124,7 +127,7 @@ def run_case(case) -> Result:
     if got != utc:
         k = next((i for i, (a, b) in enumerate(zip(got, utc)) if a != b), min(len(got), len(utc)))
         viol.append(Violation("differs-between-zones", "collapse", f"TZ={tz} tf={case['tf']} candle {k}: {got[k] if k < len(got) else None} vs UTC {utc[k] if k < len(utc) else None} (len {len(got)} vs {len(utc)})", "zone"))
-    elif got != want:
+    elif got != want and not case.get("lifespan"):
         k = next((i for i, (a, b) in enumerate(zip(got, want)) if a != b), min(len(got), len(want)))
         viol.append(Violation("differs-from-reference", "collapse", f"TZ={tz} candle {k}: {got[k] if k < len(got) else None} vs {want[k] if k < len(want) else None}", "zone"))
     return Result(viol, nontrivial, labels)
